@@ -17,6 +17,7 @@ type Client struct {
 
 // Release returns client to the pool.
 func (c *Client) Release() {
+	verifPoint("pool:release-enter")
 	if c.res == nil {
 		return
 	}
